@@ -46,11 +46,13 @@ struct Scenario
 	{
 		if (frame_depth > 1) ++r->st->inline_calls; // (this handler's own frame is already counted)
 		r->inv.push_back(std::make_pair(now_ns(), ecs(ec) + extra));
+		// an intervention placed INSIDE a user handler: the library frame that invoked the handler is still on the stack and goes on after it returns
+		{ int h = handler_ordinal++; for (auto& x : inside) if (x.first == h && size_t(x.second) < actions.size()) { inside_applied.push_back(fmt("@%lld[inside handler %d: %s] %s", (long long)now_ns(), h, r->name.c_str(), actions[size_t(x.second)].name.c_str())); actions[size_t(x.second)].fn(); } }
 		if (throw_next) { throw_next = false; ++thrown; throw user_error{ 42 }; }
 	}
 	// handlers run from the event loop only: one that starts while another harness frame (a handler, build(), an action) is
 	// still on the stack was invoked from inside a call that frame made - whichever call it was
-	int frame_depth = 0;
+	int frame_depth = 0; int handler_ordinal = 0; std::vector<std::pair<int, int>> inside; std::vector<std::string> inside_applied;
 	struct Frame { Scenario* s; explicit Frame(Scenario* x) : s(x) { ++s->frame_depth; } ~Frame() { --s->frame_depth; } };
 	template <class F> auto h_ec(Rec* r, F cont) { return track(r->st, [this, r, cont](error_code const& ec) { Frame f(this); invoked(r, ec); cont(ec); }); }
 	template <class F> auto h_ec_n(Rec* r, F cont) { return track(r->st, [this, r, cont](error_code const& ec, std::size_t n) { Frame f(this); invoked(r, ec, fmt("/%zu", n)); cont(ec, n); }); }
@@ -382,6 +384,8 @@ RunResult execute(std::function<std::unique_ptr<Scenario>()> const& mk, std::vec
 	RunResult R;
 	std::unique_ptr<Scenario> S = mk();
 	{ Scenario::Frame bf(S.get()); S->build(); }
+	// entries with a negative first component -(h+1) are placed inside the h-th tracked handler invocation, the others at event boundaries
+	{ std::vector<std::pair<int, int>> at; for (auto& x : iv) { if (x.first < 0) S->inside.push_back(std::make_pair(-x.first - 1, x.second)); else at.push_back(x); } iv.swap(at); }
 	int boundary = 0; size_t next = 0; uint64_t steps = 0;
 	std::vector<std::string> applied;
 	auto apply_due = [&]() {
@@ -436,6 +440,7 @@ RunResult execute(std::function<std::unique_ptr<Scenario>()> const& mk, std::vec
 	}
 	if (want12 && !S->thrown) { S->check_bystander(); }
 	for (auto& f : S->fails) R.fails.push_back(f);
+	for (auto& a : S->inside_applied) applied.push_back(a);
 	for (auto& a : applied) R.trace = a + " | " + R.trace;
 	// everything can be destroyed (objects, nodes, simulation) without a report
 	S->teardown();
@@ -492,6 +497,20 @@ struct IvEngine : Engine
 			RunResult r = execute(mk, { std::make_pair(k, a) }, true, &on, want04, want12);
 			ctx.R.transitions += r.handlers; ctx.outcome(r.trace.substr(r.trace.find(" | ") + 3)); ctx.state(fmt("%s|%d|%d", scn.c_str(), k, a));
 			ctx.R.counters["single_interventions"]++;
+			judge(ctx, c, scn, r);
+			ctx.end();
+			if (ctx.out_of_time()) { ctx.R.exhaustive = false; return; }
+		}
+		// the same actions applied from INSIDE every handler invocation of the base run (the library frame that called the handler continues afterwards)
+		for (int a = 0; a < nactions; ++a) for (int h = 0; h < int(on.handlers); ++h) {
+			if (h % 64 != slice) continue;
+			if (!ctx.next_case()) continue;
+			Case c; c.set("s", (long long)si).set("iv", fmt("%d:%d", -h - 1, a));
+			{ auto S = mk(); S->build(); c.set("a1name", "inside a handler: " + S->actions[size_t(a)].name); S->teardown(); }
+			ctx.begin(c);
+			RunResult r = execute(mk, { std::make_pair(-h - 1, a) }, true, &on, want04, want12);
+			ctx.R.transitions += r.handlers; ctx.outcome(r.trace.substr(r.trace.find(" | ") + 3)); ctx.state(fmt("%s|in%d|%d", scn.c_str(), h, a));
+			ctx.R.counters["interventions_inside_a_handler"]++;
 			judge(ctx, c, scn, r);
 			ctx.end();
 			if (ctx.out_of_time()) { ctx.R.exhaustive = false; return; }
